@@ -355,7 +355,30 @@ func c20Reject(w *W) {
 		{"--push", "--bind", addr, "--file", "/etc/hostname", "--data", ""}, // other order
 		{"--push", "--bind", addr, "--file", "/dev/null", "--file", "/etc/hostname"},
 	}
-	i := w.Choose(simrt.SShape, len(cases))
+	// every ordered pair of two different output formats, in each spelling
+	// (the order matters to a parser that remembers "a format was given" by
+	// comparing against a zero value)
+	type fopt struct {
+		id   string
+		args []string
+	}
+	fopts := []fopt{{"no", []string{"--format", "no"}}, {"no", []string{"--format=no"}}, {"raw", []string{"--raw"}}, {"raw", []string{"--format", "raw"}},
+		{"ascii", []string{"--ascii"}}, {"ascii", []string{"-A"}}, {"ascii", []string{"--format=ascii"}}, {"quoted", []string{"--quoted"}}, {"quoted", []string{"-Q"}},
+		{"quoted", []string{"--format", "quoted"}}, {"msgpack", []string{"--msgpack"}}, {"msgpack", []string{"--format", "msgpack"}}}
+	nfixed := len(cases)
+	for _, a := range fopts {
+		for _, b := range fopts {
+			if a.id != b.id {
+				c := append([]string{"--pull", "--bind", addr}, a.args...)
+				cases = append(cases, append(c, b.args...))
+			}
+		}
+	}
+	i := w.Choose(simrt.SShape, 2*nfixed)
+	if i >= nfixed {
+		i = nfixed + w.Choose(simrt.SShape, len(cases)-nfixed)
+		w.Probe("two-formats-rejected")
+	}
 	args := cases[i]
 	w.SetShape("case", i)
 	peer := w.Sock("pull")
